@@ -544,9 +544,13 @@ class HistGen:
         w, rng = self.w, self.rng
         nat = rng.choice(w.natives)
         dec = rng.choice([0, 6, 8, 18, w.decimals[nat[1]]])
+        funds = []
+        if rng.random() < 0.4:
+            # coins attached to the admin call itself (they belong to the factory afterwards, never to the pairs)
+            funds = [[rng.choice(w.natives)[1], str(rng.choice([1, 2, 1000, 10 ** 6]))]]
         return {"kind": "add_decimals", "actor": "owner", "contract": w.factory,
-                "msg": {"add_native_token_decimals": {"denom": nat[1], "decimals": dec}}, "funds": [],
-                "sem": {"denom": nat[1], "decimals": dec}}, []
+                "msg": {"add_native_token_decimals": {"denom": nat[1], "decimals": dec}}, "funds": funds,
+                "sem": {"denom": nat[1], "decimals": dec, "funds": [(d, int(a)) for d, a in funds]}}, []
 
     def g_owner_admin(self):
         """legitimate privileged operations by the owner: they must not change how pairs trade"""
